@@ -67,3 +67,73 @@ pub fn introspect_invariants(x: &Value) -> Value {
         Err(p) => json!({"id": x["id"], "t": "panic", "err": panic_msg(p)}),
     }
 }
+
+// ------------------------------------------------------------------------------------------------
+// C25: a schema-generic adapter that honours the contract for contexts without an active vertex,
+// except for one injected fault at one site.
+// ------------------------------------------------------------------------------------------------
+use trustfall_core::interpreter::{Adapter, AsVertex, ContextIterator, ContextOutcomeIterator, DataContext, ResolveEdgeInfo, ResolveInfo, VertexIterator};
+use trustfall_core::ir::EdgeParameters;
+
+#[derive(Clone, Debug, Default)]
+pub struct Fault { pub kind: String, pub ty: String, pub field: String, pub mode: String }
+#[derive(Clone)]
+pub struct FaultyAdapter { pub fault: Option<Fault> }
+impl FaultyAdapter {
+    fn hit(&self, kind: &str, ty: &str, field: &str) -> Option<String> {
+        self.fault.as_ref().filter(|f| f.kind == kind && f.ty == ty && f.field == field).map(|f| f.mode.clone())
+    }
+}
+fn disturb<'a, X: 'a>(mode: &str, items: Vec<X>) -> Vec<X> where X: Clone {
+    let mut v = items;
+    match mode {
+        "reorder" => { if v.len() >= 2 { let n = v.len(); v.swap(n - 2, n - 1); } v }
+        "reverse" => { v.reverse(); v }
+        "drop" => { if v.len() >= 3 { v.remove(2); } v }
+        "dup" => { if let Some(x) = v.first().cloned() { v.insert(0, x); } v }
+        _ => v,
+    }
+}
+impl<'a> Adapter<'a> for FaultyAdapter {
+    type Vertex = u32;
+    fn resolve_starting_vertices(&self, _e: &Arc<str>, _p: &EdgeParameters, _ri: &ResolveInfo) -> VertexIterator<'a, u32> { Box::new(std::iter::empty()) }
+    fn resolve_property<X: AsVertex<u32> + 'a>(&self, c: ContextIterator<'a, X>, t: &Arc<str>, p: &Arc<str>, _ri: &ResolveInfo) -> ContextOutcomeIterator<'a, X, FieldValue> {
+        let mode = self.hit("prop", t, p);
+        let ctxs: Vec<DataContext<X>> = c.collect();
+        let ctxs = match &mode { Some(m) => disturb(m, ctxs), None => ctxs };
+        let wrong = mode.as_deref() == Some("wrong");
+        Box::new(ctxs.into_iter().enumerate().map(move |(i, ctx)| (ctx, if wrong && i == 3 { FieldValue::Int64(1) } else { FieldValue::Null })))
+    }
+    fn resolve_neighbors<X: AsVertex<u32> + 'a>(&self, c: ContextIterator<'a, X>, t: &Arc<str>, e: &Arc<str>, _p: &EdgeParameters, _ri: &ResolveEdgeInfo) -> ContextOutcomeIterator<'a, X, VertexIterator<'a, u32>> {
+        let mode = self.hit("nbrs", t, e);
+        let ctxs: Vec<DataContext<X>> = c.collect();
+        let ctxs = match &mode { Some(m) => disturb(m, ctxs), None => ctxs };
+        let wrong = mode.as_deref() == Some("wrong");
+        Box::new(ctxs.into_iter().enumerate().map(move |(i, ctx)| {
+            let it: VertexIterator<'a, u32> = if wrong && i == 3 { Box::new(std::iter::once(7u32)) } else { Box::new(std::iter::empty()) };
+            (ctx, it)
+        }))
+    }
+    fn resolve_coercion<X: AsVertex<u32> + 'a>(&self, c: ContextIterator<'a, X>, t: &Arc<str>, to: &Arc<str>, _ri: &ResolveInfo) -> ContextOutcomeIterator<'a, X, bool> {
+        let mode = self.hit("coerce", t, to);
+        let ctxs: Vec<DataContext<X>> = c.collect();
+        let ctxs = match &mode { Some(m) => disturb(m, ctxs), None => ctxs };
+        let wrong = mode.as_deref() == Some("wrong");
+        Box::new(ctxs.into_iter().enumerate().map(move |(i, ctx)| (ctx, wrong && i == 3)))
+    }
+}
+
+/// {id, sdl, faults: [{kind, ty, field, mode}]} -> {id, t, results: [{panicked, msg}], clean: {panicked, msg}}
+pub fn checker_faults(x: &Value) -> Value {
+    let sdl = x["sdl"].as_str().unwrap().to_string();
+    let schema = match panic::catch_unwind(|| Schema::parse(&sdl)) { Ok(Ok(s)) => s, _ => return json!({"id": x["id"], "t": "badschema"}) };
+    let run = |fault: Option<Fault>| -> Value {
+        let s2 = schema.clone();
+        let r = panic::catch_unwind(AssertUnwindSafe(move || trustfall_core::interpreter::helpers::check_adapter_invariants(&s2, FaultyAdapter { fault })));
+        match r { Ok(()) => json!({"panicked": false, "msg": ""}), Err(p) => json!({"panicked": true, "msg": panic_msg(p).chars().take(200).collect::<String>()}) }
+    };
+    let clean = run(None);
+    let results: Vec<Value> = x["faults"].as_array().unwrap().iter().map(|f| run(Some(Fault {
+        kind: f["kind"].as_str().unwrap().into(), ty: f["ty"].as_str().unwrap().into(), field: f["field"].as_str().unwrap().into(), mode: f["mode"].as_str().unwrap().into() }))).collect();
+    json!({"id": x["id"], "t": "ok", "clean": clean, "results": results})
+}
